@@ -56,6 +56,9 @@ type gateInfo struct {
 
 func runC04(r *Report, tier string) {
 	P := r.P
+	// round 6: the alg consulted is the alg in the bytes that are verified
+	r.rule("R19.3", "(shared with C19) no in-package UnmarshalCBOR retains its input buffer: the parsed protected map (where the algorithm is looked up) and the retained raw bytes (what is verified) cannot drift apart when the caller reuses its buffer.")
+	checkInputNotRetained(r, "R19.3")
 	r.rule("R04.1", "every key invocation in a method with Headers is dominated by ok(gate(headers, key.Algorithm(), external)) with the same key value, the same Headers whose protected bytes are signed and the same external data; Algorithm() is invoked once; nothing writes the Headers between gate and key.")
 	r.rule("R04.2", "each success path of a gate is one of: (a) candidate == alg; (b) accessor reported not-found and len(external) > 0; (c) sign gate only: not-found, RawProtected == nil and alg inserted under label 1 into the current protected map. The verify gate writes nothing. Mismatch returns ErrAlgorithmMismatch; other accessor errors are returned.")
 	r.rule("R04.3", "on the sign side the gate dominates the ToBeSigned builder call (the injected alg is inside the signed bytes).")
@@ -601,6 +604,7 @@ func checkDecodedAlg(r *Report, accessor *ssa.Function) {
 	// ... and always replaces the destination map: no alg of an earlier
 	// decode survives in Headers.Protected (shared with R19.2)
 	checkReceiverAssigned(r, "R04.4", ph)
+	checkNoWriteBelowOldReceiver(r, "R04.4", ph)
 
 	// R04.5: the accessor's value table
 	checkAlgAccessor(r, "R04.5", accessor)
